@@ -247,7 +247,48 @@ func (ex *Exec) paramVal(name string, t types.Type, st *State) Val {
 	}
 	c := ex.vc.declare("p!"+name, sortOf(t))
 	ex.typeFacts(c, t, st)
+	ex.sizeHints(c, t, st, 0)
 	return Scalar{c, t}
+}
+
+// sizeHints records bounds on the sizes of an input (slices and strings at most 3 long, also inside the struct a
+// pointer parameter points to and, for slices of slices, for every element). They are never part of a proof: when
+// no solver decides an obligation, a second query with these bounds added looks for a small counter-model.
+func (ex *Exec) sizeHints(c Term, t types.Type, st *State, depth int) {
+	if depth > 1 {
+		return
+	}
+	switch u := under(t).(type) {
+	case *types.Slice:
+		ex.vc.SizeHints = append(ex.vc.SizeHints, Le(SlLen(c), IntLit(3)).S, Le(SlCap(c), IntLit(4)).S)
+		if inner, ok := under(u.Elem()).(*types.Slice); ok {
+			name, lt := elemHeap(u.Elem(), nil)
+			h := st.heap(name, ArraySort(ArraySort(sortOf(lt))))
+			iv := Var("h?", SInt)
+			el := Select(Select(h, SlArr(c)), iv)
+			ex.vc.SizeHints = append(ex.vc.SizeHints, Forall([]Bound{{"h?", SInt}}, And(Le(SlLen(el), IntLit(3)), Le(SlCap(el), IntLit(4)))).S)
+			_ = inner
+		}
+	case *types.Basic:
+		if c.Sort == SStr {
+			ex.vc.SizeHints = append(ex.vc.SizeHints, Le(StrLen(c), IntLit(3)).S)
+		}
+	case *types.Pointer:
+		sty, ok := under(u.Elem()).(*types.Struct)
+		if !ok {
+			return
+		}
+		for _, l := range leavesOf(u.Elem()) {
+			srt := sortOf(l.Ty)
+			if srt != SSlice && srt != SStr {
+				continue
+			}
+			name, lt := fieldHeap(u.Elem(), l.Path)
+			h := st.heap(name, ArraySort(sortOf(lt)))
+			ex.sizeHints(Select(h, c), l.Ty, st, depth+1)
+		}
+		_ = sty
+	}
 }
 
 // checkAssigns proves that nothing outside the declared frame changed for objects that existed at entry.
